@@ -1,6 +1,7 @@
 package main
 
 import (
+	"go/types"
 	"fmt"
 	"go/constant"
 	"go/token"
@@ -70,12 +71,22 @@ func propC16(c *Ctx, r *Report) {
 	acc := newTableAcc()
 	evalEra := func(name string, fn *ssa.Function, mk func(h uint32) *Scenario, want, got func(h uint32, t *Trace) string) {
 		var bad []string
+		definite := false
 		for _, h := range e.reps {
 			t, _ := acc.run(c, r, fn, mk(h))
 			w, g := want(h, t), got(h, t)
-			if w != g && len(bad) < 5 {
-				bad = append(bad, fmt.Sprintf("h=%d expected %s, code gives %s", h, w, g))
+			if w != g {
+				if !strings.Contains(g, "⊤") {
+					definite = true
+				}
+				if len(bad) < 5 {
+					bad = append(bad, fmt.Sprintf("h=%d expected %s, code gives %s", h, w, g))
+				}
 			}
+		}
+		if len(bad) > 0 && !definite {
+			r.undecided("C16/era-table", name, c.pos(fn.Pos()), "the table could not be evaluated: "+strings.Join(bad, "; "))
+			return
 		}
 		r.check(len(bad) == 0, "C16/era-table", name, c.pos(fn.Pos()), fmt.Sprintf("%d height classes", len(e.reps)), strings.Join(bad, "; "))
 	}
@@ -295,10 +306,20 @@ func propC16(c *Ctx, r *Report) {
 				if !sliceHas(ua[4], func(v ssa.Value) bool { return isCallTo(v, "TotalRequested") }) {
 					bad = append(bad, "total_requested is not limit.TotalRequested()")
 				}
-				if valuePath(ua[2]) != "bankHeight" {
-					bad = append(bad, "the bank row updated is not bankHeight")
+				// by position and type, not by name: the bank row updated is recordPegnetRequests' int32 parameter (the era
+				// table checks what the callers pass for it), the supply set is created with its uint64 parameter
+				isOwn := func(v ssa.Value, kind types.BasicKind) bool {
+					i := ownParam(v, rp)
+					if i < 0 {
+						return false
+					}
+					b, ok := rp.Params[i].Type().Underlying().(*types.Basic)
+					return ok && b.Kind() == kind
 				}
-				if valuePath(ncs[0].Common().Args[0]) != "bank" {
+				if !isOwn(ua[2], types.Int32) {
+					bad = append(bad, "the bank row updated is not the bank-height parameter")
+				}
+				if !isOwn(ncs[0].Common().Args[0], types.Uint64) {
 					bad = append(bad, "the supply set is not created with the bank parameter")
 				}
 			}
@@ -353,7 +374,13 @@ func propC16(c *Ctx, r *Report) {
 				return idx
 			}
 			i1, i2, i3 := usesParam(m[1]), usesParam(m[2]), ownParam(q[2], pb)
-			okk = sliceHas(q[1], func(v ssa.Value) bool { return v == muls[0].(ssa.Value) }) && i1 >= 0 && i2 >= 0 && i3 >= 0 && i1 != i2 && i1 != i3 && i2 != i3
+			// the dividend is the product: the Mul call's result, or the object Mul stored the product in (its receiver)
+			dividendIsProduct := sliceHas(q[1], func(v ssa.Value) bool { return v == muls[0].(ssa.Value) }) || unwrap(q[1]) == unwrap(m[0])
+			i1b := usesParam(m[0])
+			if i1 < 0 || i1 == i2 {
+				i1 = i1b // x.Mul(x, y): the first factor is the receiver itself
+			}
+			okk = dividendIsProduct && i1 >= 0 && i2 >= 0 && i3 >= 0 && i1 != i2 && i1 != i3 && i2 != i3
 			if okk {
 				nsite := 0
 				for _, ci := range c.findCallsFam(pf, "conversions.PayoutBig") {
